@@ -818,7 +818,7 @@ def inits(ctx):
                 add("third3", track, stat, 2, pool="empty", triples="rot", addocc=1)
             for stat in ("none", "gp", "mixed"):
                 add("third3", track, stat, 2, pool="default", triples="rot", addocc=1)
-        for track, stat, pool in ((True, "gp", "empty"), (False, "gp", "filled"), (True, "none", "filled")):
+        for track, stat, pool in ((True, "gp", "empty"), (False, "gp", "filled")):
             add("third3", track, stat, 4, pool=pool, fresh=[0], triples="rot", addocc=0, addout=0, pool_=1)
     for init, _d in out:  # 'pool' is the pool kind in add(); the alphabet bound is spelled pool_ there
         if "pool_" in init["alpha"]:
